@@ -366,6 +366,15 @@ impl ARunner {
                 self.dev.set_datarate(lorawan_device::region::DR::from(n.parse::<u8>().ok()?));
                 Some("ok".into())
             }
+            ["classc", b] => {
+                if *b == "1" {
+                    self.dev.enable_class_c();
+                } else {
+                    self.dev.disable_class_c();
+                }
+                self.hdr.3 = *b == "1";
+                Some("ok".into())
+            }
             ["hold"] => {
                 self.hold = true;
                 Some("ok".into())
